@@ -113,7 +113,33 @@ func interestingTicks(v int64, epochTicks int64, epochUnix int64) bool {
 	return false
 }
 
-// genTime draws a Go time in [1601, 30828] that is a whole number of ticks.
+// genZone draws the Location of a generated time. A time.Time is an instant plus a presentation
+// zone; every conversion here is defined on the instant, so the zone must not matter: UTC, the
+// offsets in use today (whole hours, :30 and :45, both signs, the +14:00 / -12:00 extremes), and
+// arbitrary offsets to the second (local mean time zones before standard time have such offsets).
+func genZone(t *rapid.T) *time.Location {
+	var off int
+	switch rapid.IntRange(0, 3).Draw(t, "zoneClass") {
+	case 0:
+		return time.UTC
+	case 1:
+		off = rapid.SampledFrom([]int{3600, -3600, -18000, 19800, -12600, 20700, 45900, 50400, -43200, 1, -1}).Draw(t, "zoneKnown")
+	case 2:
+		off = 60 * rapid.IntRange(-14*60, 14*60).Draw(t, "zoneMinutes")
+	default:
+		off = rapid.IntRange(-14*3600, 14*3600).Draw(t, "zoneSeconds")
+	}
+	return zone(off)
+}
+
+func zone(off int) *time.Location {
+	if off == 0 {
+		return time.UTC
+	}
+	return time.FixedZone("", off)
+}
+
+// genTime draws a Go time in [1601, 30828] that is a whole number of ticks, in a zone of its own.
 func genTime(t *rapid.T, minUnix, maxUnix int64) time.Time {
 	var sec int64
 	switch rapid.IntRange(0, 3).Draw(t, "timeClass") {
@@ -138,7 +164,7 @@ func genTime(t *rapid.T, minUnix, maxUnix int64) time.Time {
 	case 1:
 		ns = rapid.SampledFrom([]int64{0, 100, 999_999_900, 500_000_000}).Draw(t, "nsEdge")
 	}
-	return time.Unix(sec, ns).UTC()
+	return time.Unix(sec, ns).In(genZone(t))
 }
 
 const maxFiletimeUnix = int64(910692730085) // floor((2^63-1 - epoch)/1e7)
@@ -149,11 +175,15 @@ type tickCase struct {
 type timeCase struct {
 	Sec  int64 `json:"unix_sec"`
 	Nsec int64 `json:"nsec"`
+	Zone int   `json:"zone_offset_s,omitempty"` // seconds east of UTC of the value's Location
 }
 
-func (c timeCase) T() time.Time { return time.Unix(c.Sec, c.Nsec).UTC() }
+func (c timeCase) T() time.Time { return time.Unix(c.Sec, c.Nsec).In(zone(c.Zone)) }
 
-func tc(t time.Time) timeCase { return timeCase{t.Unix(), int64(t.Nanosecond())} }
+func tc(t time.Time) timeCase {
+	_, off := t.Zone()
+	return timeCase{t.Unix(), int64(t.Nanosecond()), off}
+}
 
 // ---- FILETIME -----------------------------------------------------------------
 
@@ -342,6 +372,7 @@ type utickCase struct {
 }
 
 var versions = []uint32{key.KeyCredentialVersion_0, key.KeyCredentialVersion_1, key.KeyCredentialVersion_2}
+var sources = []key.KeySource{key.KeySource_AD, key.KeySource_AzureAD}
 
 func checkDateTime(c utickCase) []vf.Finding {
 	var fs []vf.Finding
@@ -386,22 +417,61 @@ func TestKeyCredDateTime(t *testing.T) {
 	})
 }
 
+// NewDateTime(0) is documented to mean "now": the value is not predictable, but the pair it returns
+// must be one DateTime: its Ticks and its Time name the same instant, at tick resolution, and ToBytes
+// carries those ticks. No clock is read here; the library's two answers are compared with each other.
+type nowCase struct {
+	Call int `json:"call"`
+}
+
+func checkDateTimeNow(c nowCase) []vf.Finding {
+	var fs []vf.Finding
+	dt := kcutils.NewDateTime(0)
+	if dt.Ticks == 0 {
+		return []vf.Finding{vf.F("NewDateTime(0)", "now-has-no-ticks", "Ticks 0 next to Time %v", dt.Time.UTC())}
+	}
+	// within one tick either way: how the sub-tick part of the clock reading is rounded is not specified
+	want := wintime.TimeToTicks(dt.Time, wintime.Epoch1601Unix)
+	if diff := new(big.Int).Sub(want, new(big.Int).SetUint64(dt.Ticks)); diff.CmpAbs(big.NewInt(1)) > 0 {
+		fs = append(fs, vf.F("NewDateTime(0)", "ticks-and-time-disagree", "Ticks %d next to Time %v (= %s ticks)", dt.Ticks, dt.Time.UTC(), want))
+	}
+	again := kcutils.NewDateTime(dt.Ticks)
+	if d := dt.Time.Sub(again.Time); d < -100*time.Nanosecond || d > 100*time.Nanosecond {
+		fs = append(fs, vf.F("NewDateTime(0)", "ticks-and-time-disagree", "NewDateTime(its Ticks %d).Time = %v, its Time %v (%v apart)", dt.Ticks, again.Time.UTC(), dt.Time.UTC(), d))
+	}
+	if raw := dt.ToBytes(); len(raw) != 8 || binary.LittleEndian.Uint64(raw) != dt.Ticks {
+		fs = append(fs, vf.F("DateTime.ToBytes", "not-little-endian-64", "%d -> %x", dt.Ticks, raw))
+	}
+	return fs
+}
+
+func TestKeyCredDateTimeNow(t *testing.T) {
+	s := vf.Begin(t, P, "keycred-datetime-now")
+	vf.Enum(s, func(yield func(nowCase)) {
+		for i := 0; i < vf.N(50, 500); i++ {
+			yield(nowCase{i})
+		}
+	}, checkDateTimeNow, nil)
+}
+
 func checkBinaryTime(c timeCase) []vf.Finding {
 	tm := c.T()
 	want := wintime.TimeToTicks(tm, wintime.Epoch1601Unix)
 	if !want.IsUint64() || want.Sign() <= 0 {
 		return nil
 	}
+	// every (version, source) pair the two functions branch on
 	for _, v := range versions {
 		ver := key.KeyCredentialVersion{Value: v}
-		src := key.KeySource_AD
-		raw := kcutils.ConvertToBinaryTime(tm, src, ver)
-		if len(raw) != 8 {
-			return []vf.Finding{vf.F("ConvertToBinaryTime", "not-8-bytes", "%v -> %x", tm, raw)}
-		}
-		back := kcutils.ConvertFromBinaryTime(raw, src, ver)
-		if !back.Time.Equal(tm) {
-			return []vf.Finding{vf.F("ConvertToBinaryTime", "inverse-pair-differs", "%v -> %x -> %v (ticks %d, exact %s)", tm, raw, back.Time.UTC(), back.Ticks, want)}
+		for _, src := range sources {
+			raw := kcutils.ConvertToBinaryTime(tm, src, ver)
+			if len(raw) != 8 {
+				return []vf.Finding{vf.F("ConvertToBinaryTime", "not-8-bytes", "%v version %#x source %d -> %x", tm, v, src, raw)}
+			}
+			back := kcutils.ConvertFromBinaryTime(raw, src, ver)
+			if !back.Time.Equal(tm) {
+				return []vf.Finding{vf.F("ConvertToBinaryTime", "inverse-pair-differs", "%v version %#x source %d -> %x -> %v (ticks %d, exact %s)", tm, v, src, raw, back.Time.UTC(), back.Ticks, want)}
+			}
 		}
 	}
 	return nil
